@@ -34,6 +34,7 @@ META = {
 }
 
 PFX = "crates/ekore/src/"
+THOROUGH = False
 ALT = {"Sm1", "Sm2", "Sm3", "Sm21"}
 TOL = 1e-10
 ALIASES = {  # Rust (file, name) -> Python qualified name, where the names differ
@@ -97,7 +98,7 @@ def configs(fn, pf):
     """argument configurations (rust args, python args, label) for a twin pair; None if a parameter is not understood"""
     rs_names = [p for p, _ in fn.params]
     dispatcher = any(p in ("order_qcd", "matching_order_qcd") for p in rs_names)
-    nfs = (3, 5) if not dispatcher else (4,)
+    nfs = ((3, 5) if not dispatcher else (4,)) if not THOROUGH else ((3, 4, 5, 6) if not dispatcher else (3, 5))
     variations = (0, 1, 2) if "variation" in rs_names else (0,)
     orders = [None]
     if "order_qcd" in rs_names:
@@ -220,7 +221,7 @@ def compare_pair(chk, key):
         if probs:
             chk.fail("twins-agree", construct, f"{label}: result shapes differ: {probs[:2]}", where=fn.where, instance=label + ",shape")
             continue
-        for k in range(2):
+        for k in range(5 if THOROUGH else 2):
             sv = {"N": mp.mpc(rng.uniform(1.5, 6), rng.uniform(0.5, 3)), "L": mp.mpf(rng.uniform(-2, 2))}
             for i, (a, b) in enumerate(pairs_):
                 x = numeval.evaluate(a, sv, salt=k)
@@ -236,6 +237,8 @@ def compare_pair(chk, key):
 
 
 def run(chk):
+    global THOROUGH
+    THOROUGH = chk.tier == "thorough"
     src, ev, pe = _setup()
     chk.rule_text = "formula(Rust twin) == formula(Python twin) over common atoms, to 1e-10 at 40 digits"
     chk.trusted += ["mpmath special functions (true values of the harmonic-sum atoms)", "lark"]
